@@ -3,7 +3,8 @@
 //   positions 0..n-1 of the operation (destination(s) first); equal class index = the SAME object is passed.
 // Each case is run twice on the implementation of /repo's current tree:
 //   F: every position is a distinct object holding the given value (the "fresh destination" call)
-//   A: positions of one class are the same object (the aliased call)
+//   A: positions of one class are the same object (the aliased call); "~v" marks the arbitrary initial content of a
+//      pure destination (used for F, and for A only if no read operand shares the object)
 // Output:  F <value * n> [R <returned value>] | A <value * n> [R <returned value>]
 // The python side compares A with F (destinations) and with the initial values (frame).
 #ifndef C15_COMMON_H
@@ -45,7 +46,7 @@ static std::string run_two(const Case& c, Op& op) {
     std::ostringstream out;
     {   // fresh: all distinct
         std::vector<E> f(c.n);
-        for (int k = 0; k < c.n; ++k) f[k] = IOE::parse(c.vals[k]);
+        for (int k = 0; k < c.n; ++k) f[k] = IOE::parse(c.vals[k][0] == '~' ? c.vals[k].substr(1) : c.vals[k]);
         std::vector<E*> o(c.n);
         for (int k = 0; k < c.n; ++k) o[k] = &f[k];
         std::string ret;
@@ -58,7 +59,10 @@ static std::string run_two(const Case& c, Op& op) {
         int nc = 0;
         for (int k = 0; k < c.n; ++k) if (c.idx[k] + 1 > nc) nc = c.idx[k] + 1;
         std::vector<E> q(nc);
-        for (int k = 0; k < c.n; ++k) q[c.idx[k]] = IOE::parse(c.vals[k]);   // the last (input) position of a class gives its value
+        // a value written "~v" is the arbitrary content of a pure destination: it gives the class its value only
+        // when no operand that is read shares the object
+        for (int k = 0; k < c.n; ++k) if (c.vals[k][0] == '~') q[c.idx[k]] = IOE::parse(c.vals[k].substr(1));
+        for (int k = 0; k < c.n; ++k) if (c.vals[k][0] != '~') q[c.idx[k]] = IOE::parse(c.vals[k]);
         std::vector<E*> o(c.n);
         for (int k = 0; k < c.n; ++k) o[k] = &q[c.idx[k]];
         std::string ret;
